@@ -227,6 +227,17 @@ class Engine:
         self.model = None
         return P.SymInt(var)
 
+    def date(self, name):
+        """an arbitrary calendar-valid date, year 1..9999"""
+        from . import proxies as P
+        y, m, d = z3.Int(name + '.y'), z3.Int(name + '.m'), z3.Int(name + '.d')
+        for part, var in (('y', y), ('m', m), ('d', d)):
+            self.inputs['%s.%s' % (name, part)] = ('int', var, 'int')
+        leap = z3.And(y % 4 == 0, z3.Or(y % 100 != 0, y % 400 == 0))
+        dim = z3.If(z3.Or(m == 4, m == 6, m == 9, m == 11), 30, z3.If(m == 2, z3.If(leap, 29, 28), 31))
+        self._add(z3.And(y >= 1, y <= 9999, m >= 1, m <= 12, d >= 1, d <= dim))
+        return P.SymDate(y, m, d)
+
     # formula helpers (same names on the concrete engine)
     @staticmethod
     def And(*a): return _fb(z3.And(*[as_z3_bool(x) for x in a]))
